@@ -22,7 +22,6 @@ type baseCockpit struct {
 	w       io.Writer
 	tasks   []*task.Task
 	mu      sync.Mutex
-	spinMu  sync.Mutex
 	spinner *spinner.Spinner
 	charSet int
 	closeCh chan bool
@@ -86,18 +85,18 @@ func (b *baseCockpit) remove(t *task.Task) {
 		return
 	}
 
-	// the spinner calls back into PreUpdate (which takes b.mu) while holding its own lock, so it
-	// must not be restarted with b.mu held
-	b.spinMu.Lock()
-	defer b.spinMu.Unlock()
-
 	var mark = aurora.Green("✔")
 	if t.Errored {
 		mark = aurora.Red("✗")
 	}
-	s.FinalMSG = fmt.Sprintf("%s Finished %s in %s\r\n", mark, aurora.Bold(t.Name), t.Duration())
-	s.Restart()
-	s.FinalMSG = ""
+
+	// The line is printed between two frames, under the spinner's own lock (PreUpdate takes b.mu
+	// while the spinner holds that lock, so b.mu must not be held here). Stopping and starting the
+	// spinner around it (Restart with FinalMSG) can block for ever: a drawing goroutine that gets
+	// the spinner's lock between Stop and Start returns without releasing it.
+	s.Lock()
+	defer s.Unlock()
+	fmt.Fprintf(b.w, "\r\033[K%s Finished %s in %s\r\n", mark, aurora.Bold(t.Name), t.Duration())
 }
 
 func newCockpitOutputWriter(t *task.Task, w io.Writer, close chan bool) *cockpitOutputDecorator {
